@@ -45,7 +45,7 @@ Print Assumptions c28_all.
 Example c28_nonvacuous :
   let pcs := [PC 0 1 1 5; PC 1 0 1 5; PC 0 1 2 5; PC 1 0 2 5; PC 1 2 3 5; PC 2 1 3 5] in
   let ups := [LK 0 1 1; LK 1 0 1; LK 0 1 2; LK 1 0 2; LK 1 2 3; LK 2 1 3] in
-  let s := fst (nrun (Net [] [] [] pcs [(0, 5); (1, 5); (2, 5)]%nat ups) [PeerGone 0 1 1; PeerGone 1 0 1]) in
+  let s := fst (nrun (Net [] [] [] pcs [(0, 5); (1, 5); (2, 5)]%nat ups []) [PeerGone 0 1 1; PeerGone 1 0 1]) in
   let m := Msg 0 5 0 in
   let '(s1, o1) := nstep s (Publish m) in
   let '(s2, o2) := drain 100 s1 in
@@ -54,3 +54,14 @@ Example c28_nonvacuous :
   count_obs (Sent 0 1 1 m) (o1 ++ o2) = 0%nat /\ count_obs (Sent 0 1 2 m) (o1 ++ o2) = 1%nat /\
   count_obs (Sent 1 0 2 m) (o1 ++ o2) = 0%nat.
 Proof. vm_compute. repeat split; reflexivity. Qed.
+
+(* the guard of execPublish (peer.ctx != nil, /repo 0d866bc): a tuple that was
+   re-added by AddPeerStream and not started yet is skipped even though its
+   stale peerChannels entry is still there; once started it is written to *)
+Example c28_pending_stream_skipped :
+  let s0 := Net [] [] [] [PC 0 1 1 5] [(0, 5); (1, 5)]%nat [LK 0 1 1; LK 1 0 1] [] in
+  let s1 := fst (nrun s0 [PeerGone 0 1 1; PeerGone 1 0 1; LinkAdd 0 1 1]) in
+  snd (nrun s1 [Publish (Msg 0 5 0); Exec 0]) = [Accepted 0 0 (Msg 0 5 0); Handed 0 (Msg 0 5 0)] /\
+  snd (nrun s1 [LinkStart 0 1 1; Publish (Msg 0 5 0); Exec 0])
+    = [Accepted 0 0 (Msg 0 5 0); Handed 0 (Msg 0 5 0); Sent 0 1 1 (Msg 0 5 0)].
+Proof. vm_compute. split; reflexivity. Qed.
